@@ -98,9 +98,18 @@ class GraphHooks(Hooks):
         if name in ('add_edge', 'add_node'):
             if isinstance(g, Obj) and '$base' in path.heap[g.oid].fields:
                 h = path.heap[g.oid]
-                guarded = any(('Exception' in t or 'RuntimeError' in t or
-                               'BaseException' in t)
-                              for t in I.try_stack)
+                catches = [any(('Exception' in t or 'RuntimeError' in t or
+                                'BaseException' in t) for t in ts)
+                           for ts in I.try_stack]
+                depth = len(path.loops)
+                tl = getattr(I, 'try_loops', [0] * len(catches))
+                # tolerated per call: a handler entered inside the
+                # innermost loop; a handler around a loop does catch the
+                # RuntimeError but the rest of the loop is skipped
+                guarded = any(c and tl[i] >= depth
+                              for i, c in enumerate(catches))
+                outer = any(c and tl[i] < depth
+                            for i, c in enumerate(catches))
                 if name == 'add_node':
                     fld, meth = '$nodes', 'add'
                 elif guarded:
@@ -108,6 +117,9 @@ class GraphHooks(Hooks):
                 else:
                     # add_edge raises RuntimeError on an existing edge
                     fld, meth = '$sedges', 'append'
+                    if outer:
+                        I.event(path, 'loop-abort', g, name, tuple(args),
+                                node)
                 tgt = h.fields[fld]
                 val = Tup(args) if name == 'add_edge' else args[0]
                 I.container_method(tgt, meth, [val], path, node)
@@ -461,6 +473,15 @@ class Evaluator(object):
         a = frozenset(a.keys() if isinstance(a, dict) else a)
         b = frozenset(b.keys() if isinstance(b, dict) else b)
         return {'|': a | b, '&': a & b, '-': a - b, '^': a ^ b}[op.v]
+
+    def op_setfold(self, name, recv, others):
+        acc = self.ev(recv)
+        acc = frozenset(acc.keys() if isinstance(acc, dict) else acc)
+        for o in self.ev(others):
+            o = frozenset(o.keys() if isinstance(o, dict) else o)
+            acc = {'intersection': acc & o, 'union': acc | o,
+                   'difference': acc - o}[name.v]
+        return acc
 
     def op_in(self, item, cont):
         c = self.ev(cont)
